@@ -11,15 +11,15 @@ EXTENDS Integers, Sequences, FiniteSets, TLC, Json, IOUtils, TLCExt
 
 CONSTANTS Known
 TraceLog == ndJsonDeserialize(IOEnv.TRACE)
-VARIABLES l, live, deadline, prev, dev, pend   \* per collection name: sets / functions over offsets
-tvars == <<l, live, deadline, prev, dev, pend>>
+VARIABLES l, live, deadline, prev, dev, pend, gone   \* per collection name: sets / functions over offsets
+tvars == <<l, live, deadline, prev, dev, pend, gone>>
 Ev == TraceLog[l]
 Is(e) == l <= Len(TraceLog) /\ Ev.e = e /\ l' = l + 1
 Colls == {"P", "R", "S"}
 None == [c \in Colls |-> <<>>]
 
-TInit == l = 2 /\ live = [c \in Colls |-> {}] /\ deadline = None /\ prev = None /\ dev = {} /\ pend = None
-TReset == Is("reset") /\ live' = [c \in Colls |-> {}] /\ deadline' = None /\ prev' = None /\ dev' = {} /\ pend' = None
+TInit == l = 2 /\ live = [c \in Colls |-> {}] /\ deadline = None /\ prev = None /\ dev = {} /\ pend = None /\ gone = None
+TReset == Is("reset") /\ live' = [c \in Colls |-> {}] /\ deadline' = None /\ prev' = None /\ dev' = {} /\ pend' = None /\ gone' = None
 
 Get(f, o) == IF o \in DOMAIN f THEN f[o] ELSE 0
 Put(f, o, v) == [x \in DOMAIN f \cup {o} |-> IF x = o THEN v ELSE f[x]]
@@ -27,17 +27,19 @@ Put(f, o, v) == [x \in DOMAIN f \cup {o} |-> IF x = o THEN v ELSE f[x]]
 \* a row was inserted (committed)
 TIns == Is("xins") /\ live' = [live EXCEPT ![Ev.c] = @ \cup {Ev.o}]
         /\ deadline' = [deadline EXCEPT ![Ev.c] = Put(@, Ev.o, 0)] /\ prev' = [prev EXCEPT ![Ev.c] = Put(@, Ev.o, 0)] /\ UNCHANGED <<dev, pend>>
+        \* (what the previous occupant of the offset had as its deadline, and when the offset was taken again)
+        /\ gone' = [gone EXCEPT ![Ev.c] = Put(@, Ev.o, <<Get(deadline[Ev.c], Ev.o), Ev.at>>)]
 \* the deadline of a row was written (SetTTL: put; Extend: merge, the logger sees the absolute result)
 TTtl == Is("xttl") /\ deadline' = [deadline EXCEPT ![Ev.c] = Put(@, Ev.o, Ev.d)]
-        /\ prev' = [prev EXCEPT ![Ev.c] = Put(@, Ev.o, Get(deadline[Ev.c], Ev.o))] /\ UNCHANGED <<live, dev>>
+        /\ prev' = [prev EXCEPT ![Ev.c] = Put(@, Ev.o, Get(deadline[Ev.c], Ev.o))] /\ UNCHANGED <<live, dev, gone>>
         \* the first deadline committed after a call that set a time-to-live is (time of that call + the time-to-live)
         /\ LET p == IF Ev.o \in DOMAIN pend[Ev.c] THEN pend[Ev.c][Ev.o] ELSE <<0, 0>> IN
              /\ p # <<0, 0>> => (p[1] <= Ev.d /\ Ev.d <= p[2])
              /\ pend' = IF p # <<0, 0>> THEN [pend EXCEPT ![Ev.c] = Put(@, Ev.o, <<0, 0>>)] ELSE pend
 \* a call has set the time-to-live of a row (buffered in its transaction): between Ev.lo and Ev.hi, by the caller's clock
-TSet == Is("xset") /\ pend' = [pend EXCEPT ![Ev.c] = Put(@, Ev.o, <<Ev.lo, Ev.hi>>)] /\ UNCHANGED <<live, deadline, prev, dev>>
+TSet == Is("xset") /\ pend' = [pend EXCEPT ![Ev.c] = Put(@, Ev.o, <<Ev.lo, Ev.hi>>)] /\ UNCHANGED <<live, deadline, prev, dev, gone>>
 \* Extend moves the deadline by exactly the requested amount
-TExt == Is("xext") /\ UNCHANGED <<live, deadline, prev, dev, pend>>
+TExt == Is("xext") /\ UNCHANGED <<live, deadline, prev, dev, pend, gone>>
         /\ Get(deadline[Ev.c], Ev.o) = Get(prev[Ev.c], Ev.o) + Ev.by
 \* the vacuum deleted a row at time Ev.at: its deadline had passed (as built: the deadline it had before an
 \* extension committed between the vacuum's scan and its commit)
@@ -46,26 +48,32 @@ TDel ==
   /\ LET d == Get(deadline[Ev.c], Ev.o)  p == Get(prev[Ev.c], Ev.o) IN
      \E mode \in {"strict"} \cup (IF "D-vacuum-no-recheck" \in Known THEN {"asbuilt"} ELSE {}) :
         /\ IF mode = "strict" THEN d # 0 /\ d <= Ev.at
-           ELSE ~(d # 0 /\ d <= Ev.at) /\ p # 0 /\ p <= Ev.at
+           ELSE /\ ~(d # 0 /\ d <= Ev.at)
+                \* as built the cleanup deletes, unchecked, the offsets it picked when it scanned: the row whose extension
+                \* was committed meanwhile - or the row that has taken the offset meanwhile (its previous occupant was due,
+                \* was removed by someone else, and the offset was handed out again less than a second ago)
+                /\ \/ p # 0 /\ p <= Ev.at
+                   \/ LET g == IF Ev.o \in DOMAIN gone[Ev.c] THEN gone[Ev.c][Ev.o] ELSE <<0, 0>> IN
+                        g[1] # 0 /\ g[1] <= Ev.at /\ Ev.at - g[2] <= 1000
         /\ dev' = IF mode = "asbuilt" THEN dev \cup {"D-vacuum-no-recheck"} ELSE dev
-  /\ live' = [live EXCEPT ![Ev.c] = @ \ {Ev.o}] /\ UNCHANGED <<deadline, prev, pend>>
+  /\ live' = [live EXCEPT ![Ev.c] = @ \ {Ev.o}] /\ UNCHANGED <<deadline, prev, pend, gone>>
 \* presence poll at time Ev.at (order against the logger's events is not exact: the checks leave Ev.grace slack)
 TPoll ==
-  /\ Is("xpoll") /\ UNCHANGED <<live, deadline, prev, dev, pend>>
+  /\ Is("xpoll") /\ UNCHANGED <<live, deadline, prev, dev, pend, gone>>
   /\ LET seen == {Ev.rows[i] : i \in DOMAIN Ev.rows} IN
      /\ \A o \in DOMAIN deadline[Ev.c] :
           LET d == deadline[Ev.c][o] IN
           /\ (d # 0 /\ d + Ev.grace < Ev.at) => o \notin seen                 \* expired long ago: gone
           /\ (o \in live[Ev.c] /\ (d = 0 \/ d > Ev.at + Ev.grace)) => o \in seen  \* not due: still there
 \* the deadline as read from a replica or a restored collection equals the primary's
-TCopy == Is("xcopy") /\ UNCHANGED <<live, deadline, prev, dev, pend>> /\ Ev.d = Get(deadline[Ev.src], Ev.o)
+TCopy == Is("xcopy") /\ UNCHANGED <<live, deadline, prev, dev, pend, gone>> /\ Ev.d = Get(deadline[Ev.src], Ev.o)
 \* a copy (replica, restored collection) starts with the primary's rows and deadlines
 TClone == Is("xclone") /\ live' = [live EXCEPT ![Ev.c] = live[Ev.src]] /\ deadline' = [deadline EXCEPT ![Ev.c] = deadline[Ev.src]]
-          /\ prev' = [prev EXCEPT ![Ev.c] = prev[Ev.src]] /\ UNCHANGED <<dev, pend>>
+          /\ prev' = [prev EXCEPT ![Ev.c] = prev[Ev.src]] /\ UNCHANGED <<dev, pend, gone>>
 
 \* a replica receives the primary's deletions through the stream AND runs its own vacuum: a deletion of a row
 \* that is already gone changes nothing
-TDelGone == Is("xdel") /\ Ev.c # "P" /\ Ev.o \notin live[Ev.c] /\ UNCHANGED <<live, deadline, prev, dev, pend>>
+TDelGone == Is("xdel") /\ Ev.c # "P" /\ Ev.o \notin live[Ev.c] /\ UNCHANGED <<live, deadline, prev, dev, pend, gone>>
 
 TNext == TReset \/ TDelGone \/ TIns \/ TSet \/ TTtl \/ TExt \/ TDel \/ TPoll \/ TCopy \/ TClone
 TSpec == TInit /\ [][TNext]_tvars
@@ -74,5 +82,5 @@ ASSUME TLCSet(1, <<0, {}>>)
 Accepted == /\ PrintT(<<"DEV", TLCGet(1)[2]>>)
             /\ PrintT(<<"MATCHED", TLCGet(1)[1] - 1, Len(TraceLog)>>)
             /\ TLCGet(1)[1] - 1 = Len(TraceLog)
-Diag == <<"event", Ev, "deadline", deadline, "prev", prev, "live", live, "pend", pend>>
+Diag == <<"event", Ev, "deadline", deadline, "prev", prev, "live", live, "pend", pend, "gone", gone>>
 =============================================================================
